@@ -38,7 +38,7 @@ func main() {
 	if f.Driver != "" {
 		d, err := lib.StartDriver(f.Driver)
 		if err != nil {
-			res.Note("driver: %v", err)
+			res.Fatalf("the Lean driver did not start: %v", err)
 			lib.Finish(f, res)
 		}
 		drv = d
@@ -61,6 +61,14 @@ func main() {
 		h.replay(f.Replay)
 		lib.Finish(f, res)
 	}
+	// the premise of the pointer-level model, checked on the source this binary was built against
+	if where, err := nodeFieldAssignments(); err != nil {
+		res.Fatalf("source guard: cannot parse sync/preconfirmed/chain_storage.go: %v", err)
+	} else if len(where) > 0 {
+		res.Mismatch(lib.Mismatch{Sig: "model-differs:node-field-assigned-after-construction",
+			Input: where, Model: "Heap.lean: nodes and readers are only ever built by composite literals (allocation-only heap)",
+			Impl: "chain_storage.go assigns to a field of a node / ChainReader"})
+	}
 	root := lib.NewRNG(f.Seed)
 	t0 := time.Now()
 	lap := func(name string) {
@@ -71,12 +79,18 @@ func main() {
 	lap("fixed")
 	h.exhaustive(f.Scale(3, 4))
 	lap("exhaustive")
+	h.sequencerProbe(root.Fork(6_666_666))
+	h.fallbackProbe(root.Fork(5_555_555))
+	lap("probes")
 	nSeq := f.Scale(260, 6000)
 	h.parallel(nSeq, func(w *harness, i int) { w.seqCase(root.Fork(uint64(i)), i) })
 	lap("seq")
 	nOv := f.Scale(500, 12000)
 	h.parallel(nOv, func(w *harness, i int) { w.overlayCase(root.Fork(uint64(1_000_000+i)), i) })
 	lap("overlay")
+	nLive := f.Scale(120, 2500)
+	h.parallel(nLive, func(w *harness, i int) { w.liveCase(liveRNG(f.Seed, i), i) })
+	lap("live")
 	h.concurrentChild()
 	lap("concurrent")
 	lib.Finish(f, res)
@@ -106,7 +120,7 @@ func (h *harness) parallel(n int, fn func(w *harness, i int)) {
 				wh.drv = d
 				defer d.Close()
 			} else {
-				h.res.Note("driver: %v", err)
+				h.res.Fatalf("a worker's Lean driver did not start: %v", err)
 				continue
 			}
 		}
@@ -136,24 +150,26 @@ func (h *harness) compare(r *runner, scn *Scenario) {
 	}
 	outs, err := h.drv.AskAll(lines)
 	if err != nil {
-		h.res.Note("driver: %v", err)
+		h.res.Fatalf("the Lean driver died or answered short (%d of %d answers): %v", len(outs), len(lines), err)
 		return
 	}
 	h.res.Compared(len(outs))
 	for i, a := range r.asks {
 		model, impl := outs[i], a.impl
+		if model == "bad-op" {
+			h.res.Fatalf("the Lean driver answered bad-op to %q", clip(a.line))
+			return
+		}
 		ok := model == impl
 		if a.cmp == "apply" && strings.HasPrefix(model, "err:") {
 			h.res.Hit("apply-rejected:" + strings.TrimPrefix(model, "err:"))
 		}
 		switch a.cmp {
 		case "apply":
-			// errors are compared as a class: "err" on both sides; the two exported sentinel
-			// errors must match exactly
-			if strings.HasPrefix(model, "err:") && strings.HasPrefix(impl, "err") {
-				ms := model == "err:basetx" || model == "err:ident"
-				is := impl == "err:basetx" || impl == "err:ident"
-				ok = (!ms && !is) || model == impl
+			// rejection classes are compared (model vs the wording of juno's error); an error whose
+			// wording is unknown to the harness only has to be an error
+			if strings.HasPrefix(model, "err:") && impl == "err" {
+				ok = true
 			}
 		case "err-generic":
 			if (model == "nobase" || model == "broken") && impl == "err" {
@@ -173,9 +189,21 @@ func (h *harness) compare(r *runner, scn *Scenario) {
 					case asis:
 						ok = true
 						h.res.Hit("last-updated-as-implemented")
+						if asis != spec {
+							r.luModes["as-implemented"] = true
+						}
 					case spec:
 						ok = true
 						h.res.Hit("last-updated-as-specified")
+						if asis != spec {
+							r.luModes["as-specified"] = true
+						}
+					}
+					if len(r.luModes) > 1 {
+						h.res.Mismatch(lib.Mismatch{Sig: "model-differs:last-updated-variant-not-uniform",
+							Input: map[string]any{"line": a.line, "op": a.op, "scenario": trunc(scn, a.op)},
+							Model: "the code must answer ContractStorageLastUpdatedBlock either as implemented or as specified throughout", Impl: clip(impl)})
+						return
 					}
 				}
 			}
@@ -207,7 +235,10 @@ func (h *harness) report(r *runner, scn *Scenario) {
 		if seen {
 			continue
 		}
-		small := shrink(trunc(scn, fd.op), fd.sig)
+		small := trunc(scn, fd.op)
+		if scn.Kind != "live" {
+			small = shrink(small, fd.sig)
+		}
 		h.res.Violate(lib.Violation{Sig: fd.sig, What: fd.what, Replay: small})
 	}
 }
@@ -260,7 +291,7 @@ func (h *harness) seqCase(rng *lib.RNG, idx int) {
 	scn := &Scenario{Kind: "seq", NewState: rng.Bool(), Base: base, Head: uint64(rng.Intn(nBase))}
 	r := &runner{scn: scn, hits: map[string]int{}, withDrv: h.drv != nil}
 	if err := r.setup(); err != nil {
-		h.res.Note("setup: %v", err)
+		h.res.Fatalf("seq case %d: setup failed: %v", idx, err)
 		return
 	}
 	g := &seqGen{r: rng, maxHead: uint64(nBase - 1)}
@@ -281,7 +312,7 @@ func (h *harness) overlayCase(rng *lib.RNG, idx int) {
 	scn := genOverlay(rng, rng.Bool())
 	r, err := runScenario(scn, h.drv != nil)
 	if err != nil {
-		h.res.Note("overlay setup: %v", err)
+		h.res.Fatalf("overlay case %d: setup failed: %v", idx, err)
 		return
 	}
 	if idx < 2 {
@@ -293,7 +324,7 @@ func (h *harness) overlayCase(rng *lib.RNG, idx int) {
 func (h *harness) replay(path string) {
 	b, err := os.ReadFile(path)
 	if err != nil {
-		h.res.Note("replay: %v", err)
+		h.res.Fatalf("replay: %v", err)
 		return
 	}
 	var wrap struct {
@@ -305,7 +336,14 @@ func (h *harness) replay(path string) {
 	}
 	var scn Scenario
 	if err := json.Unmarshal(raw, &scn); err != nil {
-		h.res.Note("replay: %v", err)
+		h.res.Fatalf("replay: %v", err)
+		return
+	}
+	if scn.Kind == "live" {
+		h.res.Note("replay of a live-stage finding regenerates case (%d, %d)", scn.LiveSeed, scn.LiveIdx)
+		hh := *h
+		hh.f.Seed = scn.LiveSeed
+		hh.liveCase(liveRNG(scn.LiveSeed, scn.LiveIdx), scn.LiveIdx)
 		return
 	}
 	if scn.Kind == "concurrent" {
@@ -315,7 +353,7 @@ func (h *harness) replay(path string) {
 	}
 	r, err := runScenario(&scn, h.drv != nil)
 	if err != nil {
-		h.res.Note("replay setup: %v", err)
+		h.res.Fatalf("replay: setup failed: %v", err)
 		return
 	}
 	h.finishCase(r, &scn, "replay")
@@ -341,3 +379,5 @@ func splitLU(m string) (string, string) {
 	}
 	return "lu[" + strings.Join(as, ",") + "]", "lu[" + strings.Join(sp, ",") + "]"
 }
+
+func liveRNG(seed uint64, i int) *lib.RNG { return lib.NewRNG(seed).Fork(uint64(2_000_000 + i)) }
